@@ -272,7 +272,7 @@ class _Lazy:
 
 SAFE_STR_METHODS = {'strip', 'lower', 'upper', 'split', 'format', 'join', 'replace', 'startswith',
                     'endswith', 'lstrip', 'rstrip', 'isalpha', 'isdigit', 'title', 'zfill', 'rjust', 'ljust'}
-SAFE_LIST_METHODS = {'append', 'extend', 'index', 'count', 'copy', 'insert'}
+SAFE_LIST_METHODS = {'append', 'extend', 'index', 'count', 'copy', 'insert', 'remove', 'pop', 'clear', 'sort', 'reverse'}
 SAFE_DICT_METHODS = {'items', 'keys', 'values', 'get', 'copy', 'update'}
 
 
